@@ -1,4 +1,4 @@
-CONSTANTS Size = 8  MinSz = 2  MaxLive = 3  MaxPdu = 8
+CONSTANTS MaxLive = 3  Configs = {<<8,2>>, <<9,3>>}  Alphabet = "full"
 SPECIFICATION ISpec
 INVARIANTS AllocCompleteEmpty
 CHECK_DEADLOCK FALSE
